@@ -88,8 +88,6 @@ seq_reversed = _unsup('reversed sequence')
 seq_method = _unsup('sequence method')
 sym_range = _unsup('range with symbolic bound')
 rl_slice = _unsup('slice of run-length string')
-str_startswith = _unsup('startswith on symbolic string')
-str_endswith = _unsup('endswith on symbolic string')
 
 
 def sorted_(I, args, kwargs):
@@ -274,7 +272,38 @@ def for_over_seq(I, st, pipe, env):
             cenv = Env(env.module, env.cls, env.func, env)
             env.vars[lname] = seq_comprehension(I, comp, pipe, cenv)
             return
+    if _search_pattern(st) is not None:
+        return search_loop(I, st, pipe, env)
     return fold_loop(I, st, pipe, env)
+
+
+def _search_pattern(st):
+    """for x in S: if cond(x): return <value not depending on x>"""
+    if len(st.body) == 1 and isinstance(st.body[0], ast.If) and not st.body[0].orelse:
+        inner = st.body[0].body
+        if len(inner) == 1 and isinstance(inner[0], ast.Return):
+            tnames = {n.id for n in ast.walk(st.target) if isinstance(n, ast.Name)}
+            val = inner[0].value
+            if val is None or not any(isinstance(n, ast.Name) and n.id in tnames for n in ast.walk(val)):
+                return st.body[0].test, val
+    return None
+
+
+def search_loop(I, st, pipe, env):
+    """Search loop: the function returns from inside the loop iff some element satisfies the condition (the first one that does;
+    the returned value does not depend on it)."""
+    from .interp import Env, _Return
+    test, val = _search_pattern(st)
+    snapshot = dict(env.vars)
+
+    def cond(v):
+        e = Env(env.module, env.cls, env.func, env.parent)
+        e.vars.update(snapshot)
+        I.assign(st.target, v, e)
+        return I.truth(I.ev(test, e))
+    hits = pipe.with_stage('filter', _pointwise(I, cond))
+    if I.branch(I.pipes.observable(hits, 'ne')):
+        raise _Return(I.ev(val, env) if val is not None else None)
 
 
 def fold_loop(I, st, pipe, env):
@@ -452,3 +481,24 @@ def xlist_equals(I, a, b):
     for x, y in zip(ia, ib):
         acc = _and(acc, I.truth(I.equals(x, y)) if not (hasattr(x, 'fields') and hasattr(y, 'fields')) else I.identical(x, y))
     return acc
+
+
+def str_startswith(I, S, p):
+    """s.startswith(prefix or tuple of prefixes) on opaque text: SMT-LIB str.prefixof"""
+    from .values import to_z3_string
+    from .interp import simp
+    ps = list(p) if isinstance(p, tuple) else [p]
+    if not all(isinstance(x, (str, SStr)) for x in ps):
+        raise Unsupported('startswith with a non-string prefix')
+    zs = to_z3_string(S)
+    return simp(z3.Or(*[z3.PrefixOf(to_z3_string(x), zs) for x in ps])) if ps else False
+
+
+def str_endswith(I, S, p):
+    from .values import to_z3_string
+    from .interp import simp
+    ps = list(p) if isinstance(p, tuple) else [p]
+    if not all(isinstance(x, (str, SStr)) for x in ps):
+        raise Unsupported('endswith with a non-string suffix')
+    zs = to_z3_string(S)
+    return simp(z3.Or(*[z3.SuffixOf(to_z3_string(x), zs) for x in ps])) if ps else False
